@@ -3,3 +3,9 @@ mod standardize;
 
 pub(super) use magnetic_standardize::StandardizedMagneticCell;
 pub(super) use standardize::{orbits_in_cell, StandardizedCell};
+
+#[cfg(feature = "verif")]
+pub mod verif_exports {
+    pub use super::magnetic_standardize::StandardizedMagneticCell;
+    pub use super::standardize::{orbits_in_cell, StandardizedCell};
+}
